@@ -16,6 +16,8 @@ REGISTRY = {
     'C04': ('checks.layout', 'check_c04', 'model_checking'),
     'C05': ('checks.layout', 'check_c05', 'model_checking'),
     'C06': ('checks.layout', 'check_c06', 'model_checking'),
+    'C10': ('checks.limits', 'check_c10', 'other'),
+    'C11': ('checks.limits', 'check_c11', 'other'),
     'C15': ('checks.registry', 'check_c15', 'model_checking'),
     'C18': ('checks.config', 'check_c18', 'model_checking'),
     'C19': ('checks.history', 'check_c19', 'exploration'),
